@@ -37,7 +37,7 @@ m = {
     "version": 1,
     "setup_cmd": "./check --setup",
     "hooks": {"guard": "verif", "enable": "go test -tags verif (set by ./check for every build)",
-              "baseline_off_cmd": "cd /repo && go build ./... && go test -vet=off -count=1 -timeout 25m ./...",
+              "baseline_off_cmd": "cd /repo && go build -mod=mod ./... && go test -mod=mod -vet=off -count=1 -timeout 25m ./...",
               "source_commits": hooks_commits, "add_only": True},
     "engines": [
         {"name": "driver", "path": "/verif/check", "serves_properties": sorted(units), "kind_free_text": "python3 driver: builds the property's test binary from /repo's working tree with -tags verif, shards rapid/enumeration/fuzz units over the cores, merges stats, classifies failures against known_findings.json, writes evidence"},
